@@ -294,7 +294,26 @@ def c19(run):
     run.rc = run.finish(assumptions=["TS004 reference matrix_line / prbs23 in spec/lorawan/FragFEC.tla", "negative redundancy is DON'T-CARE"])
 
 
-PROPS = {"C01": c01, "C18": c18, "C19": c19, "C20": c20, "C11": c11, "C14": c14, "C15": c15, "C12": c12, "C13": c13, "C05": c05, "C02": c02, "C03": c03, "C04": c04, "C06": c06, "C07": c07, "C08": c08}
+def c17(run):
+    run.selftest()
+    run.design_check("BackendModel", workers=4, env={"VERIF_GEN": run.tier})
+    t = run.record("bjson", "percent")
+    run.validate("bjson", t, "Trace_bjson", label="(V) Percentage 0..1000 exhaustively")
+    run.exhaustive.append("Percentage 0..1000")
+    t = run.record("bjson", "freq", n=T(run, 4000, 3000000))
+    run.validate("bjson", t, "Trace_bjson", label="(V) Frequency: all multiples of 100 kHz, neighbours, random 0..2^32", chunk=T(run, 5000, 50000))
+    t = run.record("bjson", "text", n=T(run, 1500, 100000))
+    run.validate("bjson", t, "Trace_bjson", label="(V) hex byte strings and ISO 8601 timestamps", chunk=5000)
+    t = run.record("bjson", "structs", n=T(run, 100, 2500))
+    run.validate("bjson", t, "Trace_bjson", label="(V) the 20 payload structs with random optional-field combinations", chunk=500)
+    t = run.record("bjson", "envelope", n=T(run, 300, 10000))
+    run.validate("bjson", t, "Trace_bjson", label="(V) key envelopes: 16/24/32-byte KEKs, tampered, wrong KEK (RFC 3394 in TLA+)", chunk=T(run, 20, 100))
+    run.require_kinds("bjson/num", "bjson/hex", "bjson/time", "bjson/struct", "bjson/envelope")
+    run.rc = run.finish(assumptions=["the marshalled JSON document is embedded in the trace after a purely lexical rewrite of its leaves (numbers/strings as character codes)",
+                                     "float64-typed optional fields are compared as their JSON text (identity oracle)", "RFC 3394 / AES written in TLA+ (published vectors re-checked each run)"])
+
+
+PROPS = {"C01": c01, "C17": c17, "C18": c18, "C19": c19, "C20": c20, "C11": c11, "C14": c14, "C15": c15, "C12": c12, "C13": c13, "C05": c05, "C02": c02, "C03": c03, "C04": c04, "C06": c06, "C07": c07, "C08": c08}
 
 
 def replay(run, path):
